@@ -548,6 +548,29 @@ theorem round_small_cap_stuck :
       s.joined = false ∧ s.canStep = false ∧ s.busyOld = 1 ∧ s.len = s.cap :=
   ⟨_, rfl, by decide⟩
 
+/-- the repaired code (0194f79: the send gives up once the round's context is cancelled) needs NO
+assumption on the capacity: after the abort, whatever the capacity, the number of workers and the
+number of responses already in the channel, some step of an existing thread is enabled until
+`wg.Wait` returns — in every state, reachable or not -/
+theorem round_abort_progress_fixed (s : Round) (hr : s.reading = false) (hj : s.joined = false) :
+    s.canStepFixed = true := by
+  simp only [Round.canStepFixed, List.any_cons, List.any_nil, Bool.or_false, Bool.or_eq_true]
+  by_cases h1 : 0 < s.busyOld
+  · right; right; right; left; simp [Round.stepFixed, hr, h1]
+  by_cases h2 : 0 < s.busyNew
+  · right; right; right; left; simp [Round.stepFixed, hr, h1, h2]
+  by_cases h3 : 0 < s.idle
+  · by_cases h4 : 0 < s.queued
+    · left; simp [Round.stepFixed, Round.step, h3, h4, hr]
+    · right; right; right; right; left; simp [Round.stepFixed, Round.step, hr, h3]; omega
+  · right; right; right; right; right; simp [Round.stepFixed, Round.step, hr, hj]; omega
+
+/-- the schedule that is stuck with capacity 1 runs to the join on the repaired code -/
+theorem round_small_cap_fixed :
+    ∃ s, roundSysFixed.run { cap := 1 }
+      [.spawn, .spawn, .assign, .assign, .abort, .respondErr, .dropSend, .join] = some s ∧ s.joined = true :=
+  ⟨_, rfl, by decide⟩
+
 -- non-vacuity: the same schedule with the code's capacity runs to the join
 example : ∃ s, roundSys.run { cap := 128 }
     [.spawn, .spawn, .assign, .assign, .abort, .respondErr, .respondErr, .join] = some s ∧
